@@ -4,6 +4,7 @@ from fractions import Fraction
 import numpy as np
 import vlib
 from vlib import zl, ql, zlit, qlit
+import c08_hist
 
 HEADER = '''From Coq Require Import ZArith QArith List Bool.
 From Bignums Require Import BigQ.
@@ -25,7 +26,7 @@ Definition zt (T : list (Z * Z * Q)) : list (Z * Z * bigQ) := map (fun t => matc
 Definition probe (n : Z) (T : list (Z * Z * bigQ)) (v : list Q) : list bigQ := apply (to_triples T) (Z.to_nat n) (bql v).
 Definition bcd (o : option Q) (M : list (list bigQ)) : bigQ := bcdiag_default (option_map bq o) M.
 Definition tr (T : list (Z * Z * bigQ)) := map (fun t => match t with (r, c, w) => (c, r, w) end) T.
-'''
+''' + c08_hist.HEADER_HIST
 
 ERR = {None: 0, 'TypeError': 1, 'ValueError': 2, 'IndexError': 3, 'AssertionError': 4, 'RuntimeError': 5}
 MODES = {'strain': 0, 'stress': 1, 'Plane-Strain': 0, 'plane stress': 1, 'STRESS': 1}
@@ -135,7 +136,8 @@ def run(ctx):
                     '(zentry / SparseLin.dense); validated on every assembled case by comparing with the canonical form of the implementation matrix',
                     'plane-mode strings are mapped to the enum {strain, stress} by the harness table (substring rule of get_D not modelled)']
     vlib.audit(ctx)
-    if not vlib.ensure_static(ctx, ['theories/Props/C08.vo', 'theories/Base/SpCanon.vo', 'theories/Base/Cmp.vo', 'theories/Model/Assembly.vo', 'theories/Model/ElemMat.vo']):
+    if not vlib.ensure_static(ctx, ['theories/Props/C08.vo', 'theories/Base/SpCanon.vo', 'theories/Base/Cmp.vo', 'theories/Model/Assembly.vo', 'theories/Model/ElemMat.vo',
+                                      'theories/Model/AsmHist.vo', 'theories/Base/CplxNum.vo']):
         return
     vlib.check_props(ctx)
 
@@ -302,6 +304,32 @@ def run(ctx):
     for c in cases:
         build_case(ctx, pym, sp, c, add)
 
+    # ---------------- (f) histories: several modules on shared domain objects, dtype kinds, matrix types, aliasing
+    scen = c08_hist.stress_scenarios(rng)
+    for t in range(4 if quick else 40):
+        scen.append(c08_hist.random_scenario(rng, t))
+    scen_runs = []
+    for sc in scen:
+        r = c08_hist.run_scenario(pym, sp, sc)
+        scen_runs.append((sc, r))
+        vq, kq = c08_hist.coq_scenario(sc, r)
+        nresp = len(r['resps'])
+        ctx.count('history ' + sc['name'].split(',')[0].split(' element')[0][:24] if sc['name'].startswith('S') else 'history random')
+        for mr in r['mods']:
+            o = mr['op']
+            ctx.count('hist module ' + o['cls'])
+            ctx.count('hist matrix_type ' + o['mt'])
+            ctx.count('hist bc ' + ('none' if o.get('bc') is None else 'empty' if not o['bc'] else 'set'))
+            ctx.count('hist bcdiagval ' + ('default' if o.get('bcd') is None else o['bcd'][0]))
+            ctx.count('hist add_constant ' + ('none' if o.get('const') is None else o['const']['k'] + ' ' + o['const']['fmt']))
+            ctx.count('hist element matrix kind ' + str(mr.get('ke')))
+        for rr in r['resps']:
+            ctx.count('hist response x kind ' + str(rr['x']['k']))
+        ctx.count('hist responses', nresp)
+        for part, v in enumerate(vq):
+            add(('history values', sc['name'], nresp, part), v, True, case=sc)
+        add(('history kinds', sc['name'], nresp), kq, True, case=sc)
+
     # balance the shards: heavy cases (3-D stiffness in Q(sqrt 3)) are dealt round-robin
     def cost(e):
         return (12 if 'Kst 3%nat' in e else 1.5 if ('Kst 2%nat' in e or 'Kpo 3%nat' in e or 'Kms 3%nat' in e) else 0.2) + len(e) / 30000.0
@@ -323,12 +351,16 @@ def run(ctx):
                       dict(label=str(lab)[:1500], case=replay[idx], coq_check=checks[idx][:3000]),
                       note='Coq model and implementation differ')
     oracle(ctx, pym, sp, cases, elem_obs, thorough=(not quick) or bool(failing))
+    for sc, r in scen_runs:
+        c08_hist.oracle_scenario(ctx, sc, r, sc)
 
 
 def call_site_of(lab):
     k = lab[0]
     if k in ('get_B', 'get_D'):
         return k
+    if k in ('history values', 'history kinds'):
+        return 'AssembleGeneral (several modules)'
     if k == 'elem':
         return {'stiffness': 'AssembleStiffness._prepare', 'mass': 'AssembleMass._prepare', 'poisson': 'AssemblePoisson._prepare'}[lab[1]]
     return 'AssembleGeneral._response'
